@@ -4,6 +4,7 @@ for `record` racing `State::flush` in every interleaving.  Separate file because
 `Model/Bucket` both have `Sys`/`Thread`/`run`; imported by `Props/C10.lean`.
 -/
 import MetricsVerif.Model.StatsdHist
+import MetricsVerif.Proofs.StatsdHist
 import MetricsVerif.Props.C05
 import MetricsVerif.Generated.SourceFacts
 
@@ -114,6 +115,77 @@ theorem hist_never_sent_twice_grants (B : Nat) (recs : List (List Nat)) (answers
   simp only [s, foldl_grant_eq_run]
   exact hist_never_sent_twice B recs answers _ v
 
+/-! ### exactly once, outside the K1 window
+
+`C05.conservation_except_K1` (any programs, every schedule without a K1 step = a slot claim landing on a block a
+clear has already detached) applied to recorders + ONE flusher: the recorder threads never clear, so everything the
+bucket's clears delivered was sent by the flusher. -/
+
+/-- **every recorded value is sent exactly once or is still waiting for the next flush — outside K1.**  Any number of
+    recorder threads, any number of flushes by ONE flusher, any block size, EVERY schedule that contains no K1 step
+    (`C05.stragglerClaims … = 0`, the decidable predicate on the schedule that the driver's `bucket k1` op evaluates):
+    when all calls have finished, value by value,
+    (times recorded) = (occurrences over all the flushes sent) + (occurrences still in the bucket). -/
+theorem hist_sent_or_pending_except_K1 (B : Nat) (recs : List (List Nat)) (answers : List Bool) (sched : List Nat)
+    (hk : C05.stragglerClaims B (progsOf recs answers) sched = 0)
+    (hq : quiescent (run (init B (progsOf recs answers)) sched) = true) (v : Nat) :
+    let s := run (init B (progsOf recs answers)) sched
+    recs.flatten.count v = (sentAll s recs.length).count v + (visible s).count v := by
+  intro s
+  have h1 := C05.conservation_except_K1 B (progsOf recs answers) sched hk hq v
+  rw [count_push_progsOf] at h1
+  have h2 : delivered s = sentAll s recs.length :=
+    delivered_eq_sentAll s recs.length (fun i hi => noclrR_run sched i _ (progsOf_noclr B recs answers i hi))
+  rw [← h2]
+  exact h1
+
+/-- **every histogram value recorded with sampling off is sent in exactly one flush — outside K1.**  Any number of
+    recorder threads, ONE flusher doing any number of `State::flush`es (`as ++ [a]`), any block size; the schedule is
+    `pre ++ post` where after `pre` every recorder has finished and the flusher is about to start its LAST flush
+    (`is_empty`, then `clear_with` unless the flush is skipped), `post` runs it to the end (quiescence), and that
+    flush's `is_empty` answered what the flush acted on (how the code behaves: it skips iff `is_empty` said `true`).
+    If no step of the schedule is a K1 step, then nothing is left in the bucket and, value by value, the flushes
+    together sent every value exactly as often as it was recorded: a value recorded once is in exactly ONE flush,
+    once (`hist_never_sent_twice` already excludes "twice" in every schedule; this excludes "never").  The K1
+    hypothesis is needed: `hist_exactly_once_fails` / `hist_exactly_once_fails_is_K1`. -/
+theorem hist_exactly_once_except_K1 (B : Nat) (recs : List (List Nat)) (as : List Bool) (a : Bool)
+    (pre post : List Nat) (t0 t1 : Thread) (v : Nat)
+    (hk : C05.stragglerClaims B (progsOf recs (as ++ [a])) (pre ++ post) = 0)
+    (hrec : ∀ i t, i ≠ recs.length → (run (init B (progsOf recs (as ++ [a]))) pre).threads[i]? = some t → t.pc = .done)
+    (h0 : (run (init B (progsOf recs (as ++ [a]))) pre).threads[recs.length]? = some t0)
+    (hpc : t0.pc = .eLoadTail) (hcalls : t0.calls = flushCalls [a])
+    (hq : quiescent (run (init B (progsOf recs (as ++ [a]))) (pre ++ post)) = true)
+    (h1 : (run (init B (progsOf recs (as ++ [a]))) (pre ++ post)).threads[recs.length]? = some t1)
+    (hans : emptyAnswers t1.results = emptyAnswers t0.results ++ [a]) :
+    let s := run (init B (progsOf recs (as ++ [a]))) (pre ++ post)
+    visible s = [] ∧ (sentAll s recs.length).count v = recs.flatten.count v := by
+  intro s
+  have hacc := hist_sent_or_pending_except_K1 B recs (as ++ [a]) (pre ++ post) hk hq v
+  have hrun : s = run (run (init B (progsOf recs (as ++ [a]))) pre) post := run_append pre post _
+  have hdone : t1.pc = .done := by
+    have hq' := hq
+    simp only [quiescent, List.all_eq_true, beq_iff_eq] at hq'
+    exact hq' t1 (List.mem_of_getElem? h1)
+  have hvis : visible s = [] := by
+    rw [hrun]
+    refine final_flush_drains _ recs.length a t0 t1 post (lwrun pre _ (init_lwinv B _)) hrec h0 hpc hcalls ?_ hdone hans
+    rw [← hrun]; exact h1
+  refine ⟨hvis, ?_⟩
+  simp only at hacc
+  have : (visible s).count v = 0 := by rw [hvis]; rfl
+  simp only [s] at this ⊢
+  omega
+
+/-- the same per flush: summed over the flushes, the number of occurrences of `v` in each flush's payload is the
+    number of times `v` was recorded -/
+theorem hist_exactly_once_per_flush (s : Sys) (f : Nat) (v : Nat) :
+    (sentAll s f).count v = ((clearedOf (flusherResults s f)).map (fun vs => vs.count v)).sum := by
+  unfold sentAll
+  generalize clearedOf (flusherResults s f) = l
+  induction l with
+  | nil => rfl
+  | cons x xs ih => simp only [List.flatten_cons, List.count_append, List.map_cons, List.sum_cons, ih]
+
 /-- the full clause "every recorded value is sent in exactly ONE flush" is FALSE of the code (inherits K-C05-K1):
     recorder 1 loads the tail, the flush finds the histogram non-empty, detaches and reads the chain, then
     recorder 1 claims and publishes its slot in the detached block.  The run is consistent (`is_empty` answered
@@ -125,6 +197,30 @@ theorem hist_exactly_once_fails :
     let s := run (init 2 (progsOf recs [false])) [0, 0, 0, 0, 0, 1, 1, 2, 2, 2, 2, 2, 2, 2, 2, 1, 1]
     quiescent s = true ∧ consistent s 2 [false] = true ∧ completedPushes s = 2
       ∧ sentAll s 2 = [1] ∧ visible s = [] := by decide
+
+/-- the K1 hypothesis of `hist_exactly_once_except_K1` is needed, and the predicate flags exactly the known window:
+    the schedule of `hist_exactly_once_fails` contains exactly ONE K1 step (recorder 1's claim, taken after the
+    flush's detach CAS); cut before that claim it contains none -/
+theorem hist_exactly_once_fails_is_K1 :
+    C05.stragglerClaims 2 (progsOf [[1], [2]] [false]) [0, 0, 0, 0, 0, 1, 1, 2, 2, 2, 2, 2, 2, 2, 2, 1, 1] = 1
+    ∧ C05.stragglerClaims 2 (progsOf [[1], [2]] [false]) [0, 0, 0, 0, 0, 1, 1, 2, 2, 2, 2, 2, 2, 2, 2] = 0 := by decide
+
+/-- non-vacuity for `hist_exactly_once_except_K1` (block size 1, so every record hands the block over): two recorders,
+    three flushes; the last flush starts after both recorders have finished, finds the histogram non-empty and sends
+    the rest.  No K1 step; every value is in exactly one flush. -/
+example :
+    let recs := [[1, 2], [3]]
+    let pre := [2, 2, 0, 0, 0, 0, 0, 1, 1, 1, 1, 1, 1, 1, 2, 2, 2, 2, 2, 2, 2, 2, 0, 0, 0, 0, 0, 0, 0, 2, 2]
+    let post := [2, 2, 2, 2, 2, 2, 2, 2, 2, 2, 2, 2, 2, 2, 2]
+    let s0 := run (init 1 (progsOf recs [true, false, false])) pre
+    let s := run (init 1 (progsOf recs [true, false, false])) (pre ++ post)
+    C05.stragglerClaims 1 (progsOf recs [true, false, false]) (pre ++ post) = 0
+      ∧ (s0.threads.map (·.pc)) = [.done, .done, .eLoadTail]
+      ∧ (s0.threads[2]?.map (·.calls)) = some (flushCalls [false])
+      ∧ quiescent s = true
+      ∧ emptyAnswers (flusherResults s 2) = [true, false, false]
+      ∧ flushesOf (emptyAnswers (flusherResults s 2)) (clearedOf (flusherResults s 2)) = [none, some [3, 1], some [2]]
+      ∧ visible s = [] := by decide
 
 /-- SOURCE FACT (regenerated on every run): with sampling off every `AtomicHistogram` operation is exactly one call
     on the bucket — `record` → `push`, `is_empty` → `is_empty`, `flush` → ONE `clear_with` (snapshot and clear are
